@@ -10,7 +10,9 @@
      stage 1: And Or Not Implies Iff Ite Equals, symbols, the five kinds of constants, function
      applications, ForAll / Exists (array VALUES are not in the fragment yet);
      stage 2: Plus Times Minus LE LT ToReal Div on Int and Real, and Pow with a non-negative
-     integer constant exponent (the exponents for which Sem.vpow is defined).
+     integer constant exponent (the exponents for which Sem.vpow is defined);
+     stage 3a: bit-vector not neg and or xor add sub mul udiv urem shl lshr concat comp, ult ule,
+     bv2nat (not yet: sdiv srem ashr slt sle extract rol ror zext sext; strings; arrays).
    [in_frag] also asks what the constructors guarantee and tc does not check: arities, BV
    constants in range with positive width, Real constants with positive denominator, and that
    the sorts of symbols, bound variables and function results are inhabited first-order sorts
